@@ -122,3 +122,17 @@ check("C12",
       "writes what it should (C06)",
       "symbolic execution of the real Python code with z3 (symx), histories as solver variables, differential oracle, replay",
       "DESIGN.md 4/C12")
+check("C03",
+      "Bounded symbolic execution of Chop.calculate (closure loop), Chop.invert, Grading.add_chop/inverted and the twelve "
+      "relations for symbolic length/sizes/ratios: pairs with a given count use a concrete count 1..6 (powers are "
+      "polynomials, brentq replaced by its contract), size&c2c and c2c&total pairs use a symbolic integer count with log "
+      "and power as uninterpreted functions under ground instances of their laws added at creation time. z3 shows: count "
+      "and ratio reproduced exactly, sizes reproduced (relative 1e-6) resp. never coarser / coarser with one cell fewer, "
+      "count >= 1, expansion > 0, reversal gives same count and reciprocal expansion, realisable parameters accepted and "
+      "unrealisable ones rejected.",
+      "given counts <= 6 (quick) / 12 (thorough); 2e-8 wide slivers around c2c = 1 +- TOL left out; brentq and log/pow are "
+      "contracts, not the numerical routines; pairs that solve for a real-valued count (start&end, start&total, "
+      "end&total) and end_size&c2c<1 only in the thorough tier",
+      "symbolic execution of the real Python code with z3 (symx), uninterpreted transcendental kernels with ground axioms, "
+      "concrete replay",
+      "DESIGN.md 4/C03")
